@@ -250,7 +250,7 @@ func genC11(t *rapid.T) C11Case {
 	nb := rapid.IntRange(1, 2).Draw(t, "nbyz")
 	for i := 0; i < nb; i++ {
 		b := ByzSpec{Dial: rapid.Bool().Draw(t, "dial"), DelayMS: rapid.SampledFrom([]int{0, 0, 50, 300}).Draw(t, "bdelay")}
-		rpcs := []string{"headers", "blocks", "blocks", "checkpoint", "checkpoint", "relay-header", "relay-outline", "relay-outline", "relay-txset", "none", "none", "none"}
+		rpcs := []string{"headers", "blocks", "blocks", "checkpoint", "checkpoint", "relay-header", "relay-outline", "relay-outline", "relay-outline", "relay-txset", "relay-txset", "relay-request", "none", "none", "none"}
 		b.Corr.RPC = rapid.SampledFrom(rpcs).Draw(t, "rpc")
 		if c.Bootstrap > 0 && rapid.IntRange(0, 3).Draw(t, "bootcp") > 0 {
 			b.Corr.RPC = "checkpoint"
@@ -347,6 +347,7 @@ type c11Info struct {
 	SlowHeld     bool   // the half-open streams were opened and held
 	SynthReached bool   // the synthetic liar was asked for a checkpoint and for blocks
 	Quiescent    bool
+	Panics       int64 // handler panics the victim recovered from
 }
 
 func runC11(c C11Case, cs *kit.CaseStats) error { return runC11x(c, cs, nil) }
@@ -758,13 +759,13 @@ func runC11x(c C11Case, cs *kit.CaseStats, info *c11Info) error {
 		case "relay-header/hostile-timestamp":
 			vb := mk(true)
 			hd := vb.Header()
-			hd.Timestamp = hostileTime(b.Corr.Arg)
-			if !grindHeader(pst, &hd) {
+			hd.Timestamp = p2px.HostileTime(b.Corr.Arg)
+			if !p2px.GrindHeader(pst, &hd) {
 				return
 			}
 			err = p2px.RelayHeader(conn, hd)
 		case "relay-outline/hostile-embedded", "relay-outline/hostile-missing", "relay-outline/hostile-field":
-			o, v1, v2, ok := hostileOutline(pst, known.Block.Timestamp, b.Corr.Kind, b.Corr.Arg)
+			o, v1, v2, ok := p2px.HostileOutline(pst, known.Block.Timestamp, b.Corr.Kind, b.Corr.Arg)
 			if !ok {
 				return
 			}
@@ -774,10 +775,10 @@ func runC11x(c C11Case, cs *kit.CaseStats, info *c11Info) error {
 			// basis: the tip, its parent, or three blocks back (the proofs of the set
 			// are then updated along the blocks in between)
 			basis := known
-			for k := []int{0, 1, 3}[mod(b.Corr.Arg/hostileV2Variants, 3)]; k > 0 && basis.Parent != nil && basis.Parent.Idx >= 0; k-- {
+			for k := []int{0, 1, 3}[mod(b.Corr.Arg/p2px.HostileV2Variants, 3)]; k > 0 && basis.Parent != nil && basis.Parent.Idx >= 0; k-- {
 				basis = basis.Parent
 			}
-			txns := []types.V2Transaction{hostileV2Txn(b.Corr.Arg, 70)}
+			txns := []types.V2Transaction{p2px.HostileV2Txn(b.Corr.Arg, 70)}
 			err = safely(func() error { return p2px.RelayTxnSet(conn, basis.Index(), txns) })
 		case "relay-txset/hostile-basis":
 			// a block the victim has, under a height that is not its height
@@ -794,9 +795,12 @@ func runC11x(c C11Case, cs *kit.CaseStats, info *c11Info) error {
 			}
 			txns := []types.V2Transaction{{ArbitraryData: []byte("x")}}
 			if mod(b.Corr.Arg/4, 2) == 1 {
-				txns = []types.V2Transaction{hostileV2Txn(3, 70)}
+				txns = []types.V2Transaction{p2px.HostileV2Txn(3, 70)}
 			}
 			err = safely(func() error { return p2px.RelayTxnSet(conn, idx, txns) })
+		case "relay-request/hostile-numbers":
+			req := p2px.HostileRequest(b.Corr.Arg, known.Index(), genesisID)
+			err = safely(func() error { return p2px.Request(conn, req) })
 		case "relay-txset/empty":
 			err = p2px.RelayTxnSet(conn, known.Index(), nil)
 		case "relay-txset/unknown-basis":
@@ -986,6 +990,9 @@ func runC11x(c C11Case, cs *kit.CaseStats, info *c11Info) error {
 	}
 	T := tr.ByID[victim.Node.CM.Tip().ID]
 	if n := panics.Load(); n > 0 {
+		if info != nil {
+			info.Panics = n
+		}
 		cs.Class("handler-panic-recovered")
 		cs.Add("recovered_panics", n)
 		if os.Getenv("VERIF_NET_DEBUG") != "" {
@@ -1196,7 +1203,7 @@ func runC11x(c C11Case, cs *kit.CaseStats, info *c11Info) error {
 
 var c11Prop = kit.Prop[C11Case]{
 	ID:   "C11",
-	Rule: "a victim syncer (fresh, part-way on the honest chain, on another valid branch, or bootstrapped with RetrieveCheckpoint) + 1..2 real honest peers holding the heaviest valid chain of a generated fork tree (ending below / across / above the v2 require height) + 1..2 scripted Byzantine gateway peers, each claiming the honest chain or a longer branch containing one block core rejects (body-level or header-level corruption) or a valid lighter branch, and telling one wire lie: SendHeaders (broken link, low work, old timestamp, wrong remaining, duplicate, wrong message type, garbage, close), SendV2Blocks (other branch, swapped/dropped bodies under the same id, too few/many, reordered, foreign first block, wrong type, garbage, close), SendCheckpoint (non-v2, wrong id, altered state fields, inflated work, self-consistent forged state, wrong type, garbage), relayed headers/outlines/transaction sets (low work, unknown parent, invalid child of the tip, wrong/no missing transactions, altered transaction, empty set, unknown basis, invalid set). Every case: victim and honest peers pass the chain audit against the reference ledger (incl. full replay), tip work never decreases, no handler panic escapes, honest peers are never banned, a checkpoint returned by RetrieveCheckpoint is the true one; Ban is asserted for low-work relays, empty sets and (when sent onto the settled tip) invalid/incompletable outlines. Quiescent cases: the honest chain is not sufficiently heavier than the victim's tip, and the tip equals it when it dominates every valid chain on offer. Stall oracle (violation): for 25 s (40 s thorough) the honest peers are connected, their chain is an announceable (v2) tip sufficiently heavier than the victim's, and neither the victim's tip nor its count of distinct blocks handed to the manager changed (longest legitimate gap measured under load: 5.4 s, the victim works through its peers' header chains one after the other). Non-trivial = the victim issued the corrupted RPC and the delivered payload differed from the honest one (or the active lie was delivered).",
+	Rule: "a victim syncer (fresh, part-way on the honest chain, on another valid branch, or bootstrapped with RetrieveCheckpoint) + 1..2 real honest peers holding the heaviest valid chain of a generated fork tree (ending below / across / above the v2 require height) + 1..2 scripted Byzantine gateway peers, each claiming the honest chain or a longer branch containing one block core rejects (body-level or header-level corruption) or a valid lighter branch, and telling one wire lie: SendHeaders (broken link, low work, old timestamp, wrong remaining, duplicate, wrong message type, garbage, close), SendV2Blocks (other branch, swapped/dropped bodies under the same id, too few/many, reordered, foreign first block, wrong type, garbage, close), SendCheckpoint (non-v2, wrong id, altered state fields, inflated work, self-consistent forged state, wrong type, garbage), relayed headers/outlines/transaction sets (low work, unknown parent, invalid child of the tip, wrong/no missing transactions, altered transaction, empty set, unknown basis, invalid set), or sending hostile constants onto the victim's tip with ground proof of work (MaxCurrency fees / outputs, MaxUint64 heights, sizes and leaf indices, out-of-range timestamps, over-long proofs in embedded or served-when-asked transactions, in outline fields, header timestamps, transaction sets and their basis, requests to the victim, and in block bodies served under an unchanged v2 id; afterwards the honest chain grows by one block and the victim has to follow). Every case: victim and honest peers pass the chain audit against the reference ledger (incl. full replay), tip work never decreases, no handler panic escapes, honest peers are never banned, a checkpoint returned by RetrieveCheckpoint is the true one; Ban is asserted for low-work relays, empty sets and (when sent onto the settled tip) invalid/incompletable outlines. Quiescent cases: the honest chain is not sufficiently heavier than the victim's tip, and the tip equals it when it dominates every valid chain on offer. Stall oracle (violation): for 25 s (40 s thorough) the honest peers are connected, their chain is an announceable (v2) tip sufficiently heavier than the victim's, and neither the victim's tip nor its count of distinct blocks handed to the manager changed (longest legitimate gap measured under load: 5.4 s, the victim works through its peers' header chains one after the other). Non-trivial = the victim issued the corrupted RPC and the delivered payload differed from the honest one (or the active lie was delivered).",
 	Assumptions: []string{
 		"honest tips keep being announced every 200 ms; dropped honest connections are re-dialled",
 		"Byzantine peers hold no hash-collision power: a lie keeps at most the block id (v2 bodies under an unchanged header)",
